@@ -102,9 +102,37 @@ def generate(prop, rng, seed, index, tier):
         aw = True if any(m['op'] == 'buffer' for m in g.graph) else rng.random() < 0.55
         producers.append({'entry': n['id'], 'await': aw, 'start': rng.choice([0, 0.25]), 'items': items})
     lat = lambda: [rng.choice([0, 0, 0.25, 0.5, 1, 2, 3]) for _ in range(rng.randrange(1, 5))]   # noqa
+    faults = {'stalls': [], 'fail': []}
+    kids = {}
+    for n in g.graph:
+        for u in n.get('up', []):
+            kids[u] = kids.get(u, 0) + 1
+    maps = [n for n in g.graph if n['op'] == 'map' and not n.get('shared_fn')]
+    linear = all(v <= 1 for v in kids.values()) and not any(n['op'] in ('zip', 'union', 'buffer') for n in g.graph)
+    def only_maps_below(nid):
+        # (a failed task poisons whatever is computed from its future - a later accumulate state, a window that
+        # contains it: below the failing node there may only be stateless maps before the gather)
+        cur = nid
+        while True:
+            nxt = [n for n in g.graph if cur in n.get('up', [])]
+            if not nxt:
+                return True
+            if nxt[0]['op'] == 'gather':
+                return True
+            if nxt[0]['op'] != 'map':
+                return False
+            cur = nxt[0]['id']
+    maps = [n for n in maps if only_maps_below(n['id'])]
+    if linear and maps and rng.random() < 0.3:
+        # a task that fails for one element (the same element locally): the failure reaches the emitter in both
+        # worlds and the elements behind it are delivered in both
+        its = producers[0]['items']
+        if len(its) >= 2:
+            faults['fail_value'] = [{'node': rng.choice(maps)['id'], 'token': its[rng.randrange(0, len(its) - 1)]['v']}]
+            producers[0]['await'] = True
     return {'format': 1, 'family': 'dask', 'property': 'C20', 'seed': seed, 'index': index, 'mode': 'async',
             'tiebreak': rng.choice(['fifo', 'lifo', 'seeded']), 'tiebreak_seed': rng.randrange(1000),
-            'graph': g.graph, 'producers': producers, 'faults': {'stalls': [], 'fail': []},
+            'graph': g.graph, 'producers': producers, 'faults': faults,
             'dask': {'task_lat': lat(), 'scatter_lat': lat(), 'gather_lat': lat()}}
 
 
@@ -143,7 +171,7 @@ def evaluate(prop, sc, want_trace=False):
     sinks = [n['id'] for n in sc['graph'] if n['op'] == 'sink']
     total = 0
     for e in r_dsk.events:
-        if e[2] in ('bg_exc', 'task_exc'):
+        if e[2] in ('bg_exc', 'task_exc') and not any('njected' in str(x) for x in e[3:]):
             V.append(Violation('C20', 'C20.sequence', e[0], 'the Dask twin raised inside the pipeline: %r' % (e[3:],), node_op='gather'))
             break
     for sid in sinks:
@@ -164,6 +192,12 @@ def evaluate(prop, sc, want_trace=False):
                 has = lambda v: any((t - TOKEN_BASE) // 1000 == pid for t in tokens(v))   # noqa
                 gl, gd = [v for v in gl_all if has(v)], [v for v in gd_all if has(v)]
             cmp_len = min(len(gl), len(gd)) if not both_done else max(len(gl), len(gd))
+            if (sc.get('faults') or {}).get('fail_value') and a_loc.drained and a_dsk.quiescent and not a_dsk.drained \
+                    and len(gd) < len(gl) and gl[:len(gd)] == gd:
+                V.append(Violation('C20', 'C20.sequence', a_dsk.end_seq - 1,
+                                   'sink %d: the Dask twin delivered %d of the %d results the local twin delivered and nothing is in flight '
+                                   'any more (first missing %r)' % (sid, len(gd), len(gl), gl[len(gd)]), node_op='gather'))
+                break
             if gl[:cmp_len] != gd[:cmp_len]:
                 k = 0
                 while k < min(len(gl), len(gd)) and gl[k] == gd[k]:
@@ -175,9 +209,11 @@ def evaluate(prop, sc, want_trace=False):
                                    node_op='gather'))
                 break
     if not V and a_loc.drained and a_dsk.drained:
-        if r_loc.final_counts != r_dsk.final_counts:
-            diff = {k: (r_loc.final_counts.get(k), r_dsk.final_counts.get(k)) for k in set(r_loc.final_counts) | set(r_dsk.final_counts)
-                    if r_loc.final_counts.get(k) != r_dsk.final_counts.get(k)}
+        # (with a failing task the two worlds differ in what stays referenced: locally the exception unwinds the
+        # emitting calls and their releases are skipped, on the cluster it surfaces only at the gather)
+        diff = {k: (r_loc.final_counts.get(k), r_dsk.final_counts.get(k)) for k in set(r_loc.final_counts) | set(r_dsk.final_counts)
+                if r_loc.final_counts.get(k) != r_dsk.final_counts.get(k)}
+        if diff and not (sc.get('faults') or {}).get('fail_value'):
             V.append(Violation('C20', 'C20.refcount', a_dsk.end_seq - 1,
                                'reference counts at the end differ (element: local, Dask): %r' % (sorted(diff.items())[:4],), node_op='gather'))
     if not V:
@@ -196,6 +232,9 @@ def evaluate(prop, sc, want_trace=False):
         out.probes['union_in_segment'] = 1
     if any(n['op'] == 'accumulate' for n in sc['graph']):
         out.probes['accumulate_in_segment'] = 1
+    if (sc.get('faults') or {}).get('fail_value'):
+        out.probes['a_task_failed'] = 1
+        out.faults['failing_task'] = 1
     out.nontrivial = total >= 2
     if want_trace:
         out.res = r_dsk
